@@ -128,9 +128,15 @@ func (ck *checker) compare(ex *eventExpect, got *jnode, metrics map[string]float
 			return &cmpResult{Stage: "marks", Msg: fmt.Sprintf("field %q=%q missing although a mask matched", w.name, w.value), Sub: "missing-" + w.owner + "-mark"}
 		}
 	}
-	// metrics
-	if r := ck.compareMetric(ex, cfg.pluginMetricName(), cfg.AppliedMetricLabels, "plugin", ex.Any, ex.ApplicationsMax, metrics); r != nil {
-		return r
+	// metrics. An explicit empty applied_metric_name switches the plugin-level
+	// counter off (nothing to observe for it); the per-mask counters are
+	// independent of it: "metrics are set exactly when some mask matched" holds
+	// for every mask that has a metric_name, whatever the plugin-level name is.
+	pluginOff := cfg.pluginMetricName() == ""
+	if !pluginOff {
+		if r := ck.compareMetric(ex, cfg.pluginMetricName(), cfg.AppliedMetricLabels, "plugin", ex.Any, ex.ApplicationsMax, metrics); r != nil {
+			return r
+		}
 	}
 	for i := range cfg.Masks {
 		mc := &cfg.Masks[i]
@@ -138,6 +144,9 @@ func (ck *checker) compare(ex *eventExpect, got *jnode, metrics map[string]float
 			continue
 		}
 		if r := ck.compareMetric(ex, mc.MetricName, mc.MetricLabels, "mask", ex.AppliedCount[i] > 0, ex.AppliedMax[i], metrics); r != nil {
+			if pluginOff {
+				r.Sub += " while applied_metric_name is explicitly empty"
+			}
 			return r
 		}
 	}
